@@ -315,9 +315,24 @@ def r4(ctx, F, rule, sfx):
             s = {repr(leaf.args[1]), repr(leaf.args[2])}
             if s == {face + '.inner.left', 'cell.idx'}:
                 return ('LEFTSELF', leaf.args[0] == '==')
+            if s in ({face + '.inner.right.Some.0', 'cell.idx'}, {'unwrap(%s.inner.right)' % face, 'cell.idx'}):
+                return ('RIGHTSELF', leaf.args[0] == '==')
         return None
-    T = dtab.Table(['PER', 'BND', 'LEFTSELF'], classify)
+
+    def feasible(env_):
+        # a face is listed by the cell on its left always, and by the cell on its right iff it has a right generator and no
+        # shift (C12.R1); an unshifted face never has the same cell on both sides; a boundary face has no right generator
+        if env_['BND'] and env_['RIGHTSELF']:
+            return False
+        listed = env_['LEFTSELF'] or (env_['RIGHTSELF'] and not env_['PER'] and not env_['BND'])
+        if not listed:
+            return False
+        if not env_['PER'] and not env_['BND'] and env_['LEFTSELF'] and env_['RIGHTSELF']:
+            return False
+        return True
+    T = dtab.Table(['PER', 'BND', 'LEFTSELF', 'RIGHTSELF'], classify, constraint=feasible)
     tab = T.tabulate(v)
+    right_forms = ('unwrap(%s.inner.right)' % face, face + '.inner.right.Some.0')
     for env_ in T.rows():
         row = tuple(env_[n] for n in T.names)
         got = tab[row]
@@ -326,7 +341,7 @@ def r4(ctx, F, rule, sfx):
             ok = isinstance(got, I.St) and got.variant == 'None'
             want = 'None'
         elif env_['LEFTSELF']:
-            ok = isinstance(got, I.St) and got.variant == 'Some' and repr(got.fields[0]) in ('unwrap(%s.inner.right)' % face, face + '.inner.right.Some.0')
+            ok = isinstance(got, I.St) and got.variant == 'Some' and repr(got.fields[0]) in right_forms
             want = 'Some(right)'
         else:
             ok = isinstance(got, I.St) and got.variant == 'Some' and repr(got.fields[0]) == face + '.inner.left'
